@@ -141,6 +141,10 @@ def prepare(prop_id, clean=False):
             res['extractor_ok'] = False
             res['broken'].append('translator tools/extract.py / tools/py2lean.py')
             res['log'] += log
+        elif 'UNTRANSLATABLE' in log:
+            # a function outside the translator's subset: its definition is omitted and the theorems that
+            # mention it will not compile (reported below as broken obligations of their property)
+            res['log'] += '\n'.join(l for l in log.split('\n') if l.startswith('UNTRANSLATABLE')) + '\n'
         if clean:
             lake('clean')
         rc, out = lake('build', 'edzed_model')
